@@ -596,6 +596,15 @@ def check_variants(args):
             per = (len(a) - 1) // nvar
             status, what, nt3 = compare(run, {"steady_function:variant_slice": a[k * per:(k + 1) * per]}, {"steady_function:variant_slice": b[:-1]}, f"variant {k} of {nvar}")
             nt = nt or nt3
+        if status == "ok":
+            # an operation on the whole model reaches EVERY variant: rescale_stds on the n-variant model vs on the single-variant model
+            def stds_of(model, vi):
+                return [float(model._variants[vi].levels[q.id]) for q in model._invariant.quantities if q.human.startswith("std_")]
+            M2, F2 = fresh(ir, spec), fresh(ir, spec)
+            M2.alter_num_variants(nvar)
+            M2.rescale_stds(3)
+            F2.rescale_stds(3)
+            status, what, nt4 = compare(run, {"stds_after_rescale": stds_of(M2, k)}, {"stds_after_rescale": stds_of(F2, 0)}, f"variant {k} of {nvar}")
         res.update(status=status, what=what, nontrivial=nt)
     except S.SymbolicBranchError as exc:
         res.update(status="unknown", what=f"symbolic branch: {exc}")
@@ -1229,6 +1238,13 @@ def replay(case):
             x = x[:, k] if x.ndim == 2 else x
             if not np.allclose(x.ravel(), b["simulate"][n].ravel(), rtol=1e-9, atol=1e-9):
                 return True, f"variant {k} column of the {nvar}-variant simulation differs: {n} {x.ravel()} vs {b['simulate'][n].ravel()}"
+        M2, F2 = fresh(ir, spec), fresh(ir, spec)
+        M2.alter_num_variants(nvar)
+        M2.rescale_stds(3); F2.rescale_stds(3)
+        sa = [float(M2._variants[k].levels[q.id]) for q in M2._invariant.quantities if q.human.startswith("std_")]
+        sb = [float(F2._variants[0].levels[q.id]) for q in F2._invariant.quantities if q.human.startswith("std_")]
+        if not np.allclose(sa, sb):
+            return True, f"rescale_stds(3) on the {nvar}-variant model leaves variant {k} with stds {sa}, a single-variant model gets {sb}"
         return False, "floats agree"
     return False, "unknown case"
 
